@@ -28,9 +28,50 @@ fn lr_stuck_check() {
     }
 }
 
+/// A mutator must not hold a read section of either registry lock at the moment
+/// it takes (or waits for) a writer mutex: another mutator that holds the mutex
+/// waits in its barrier for exactly that section - both would wait forever.
+static mut HELD_SECTION_AT_LOCK: bool = false;
+static mut WRITER_LOCKS_TAKEN: u32 = 0;
+fn on_writer_lock(id: usize) {
+    if id == reg::data_mutex_var() || id == reg::fallback_mutex_var() {
+        unsafe {
+            WRITER_LOCKS_TAKEN += 1;
+            if reg::data_readers() != 0 || reg::fallback_readers() != 0 {
+                HELD_SECTION_AT_LOCK = true;
+            }
+        }
+    }
+}
+
 #[cfg(kani)]
 pub mod proofs {
     use super::*;
+
+    /// every mutator entry point, no delivery in flight: no spinning at all (the
+    /// `stuck` hook), and no read section held while a writer mutex is taken
+    #[kani::proof]
+    #[kani::unwind(10)]
+    pub fn c18_q_mutators_wait_for_nobody() {
+        use signal_hook_registry::unregister_signal;
+        reg::init_globals();
+        unsafe {
+            vshim::HOOKS.stuck = stuck;
+            vshim::HOOKS.on_lock = on_writer_lock;
+        }
+        let a = ok(unsafe { register(SA, || hit(1)) });
+        let b = ok(unsafe { register(SA, || hit(2)) });
+        let c = ok(unsafe { register(SB, || hit(3)) });
+        assert!(a.is_some() && b.is_some() && c.is_some(), "C18: a mutator fails");
+        assert!(unregister(a.unwrap()), "C18: unregister of a live id returned false");
+        assert!(!unregister(a.unwrap()), "C18: unregister of a stale id returned true");
+        #[allow(deprecated)]
+        let r = unregister_signal(SB);
+        assert!(r, "C18: unregister_signal removed nothing");
+        assert!(!unsafe { HELD_SECTION_AT_LOCK }, "C18: a mutator takes a writer mutex while it holds a read section (two such mutators wait for each other forever)");
+        assert!(vshim::ops(vshim::OP_SPIN) == 0 && !vshim::spin_stuck(), "C18: a mutator spins although no delivery is in flight");
+        kani::cover!(unsafe { WRITER_LOCKS_TAKEN } >= 6, "every mutator took the writer mutex");
+    }
 
     /// sequential: from any generation value and idle reader slots one store completes without waiting
     #[kani::proof]
